@@ -153,6 +153,7 @@ type Exec struct {
 	inPending int
 	entryPkg  *ssa.Package
 	timers    []*vTimer
+	callStack []*ssa.Function
 }
 
 func NewExec(eng *Engine, sol *Solver, harness string, prefix []uint64) *Exec {
@@ -673,10 +674,19 @@ func (ex *Exec) call(caller *frame, fn Value, args []Value, pos token.Pos) Value
 
 // throw raises a run-time panic of the interpreted program.
 func (ex *Exec) throw(msg string) {
-	panic(targetPanic{v: IfaceV{t: ex.runtimeErrType(), v: ex.mkStr(msg)}, msg: "runtime error: " + msg, where: ex.whereName()})
+	panic(targetPanic{v: IfaceV{t: ex.runtimeErrType(), v: ex.mkStr(msg)}, msg: "runtime error: " + msg + " [" + ex.stackString() + "]", where: ex.whereName()})
 }
 
 // whereName names the innermost non-harness function being executed (used to label panics).
+// stackString renders the innermost interpreted frames (for panic messages).
+func (ex *Exec) stackString() string {
+	var parts []string
+	for i := len(ex.callStack) - 1; i >= 0 && len(parts) < 8; i-- {
+		parts = append(parts, ex.callStack[i].Name())
+	}
+	return strings.Join(parts, " < ")
+}
+
 func (ex *Exec) whereName() string {
 	if ex.curFn == nil {
 		return ""
@@ -720,6 +730,8 @@ func (ex *Exec) callSSA(caller *frame, fn *ssa.Function, args []Value, env []Val
 	if fn.TypeParams().Len() > 0 && len(fn.TypeArgs()) == 0 {
 		panic(engineErr("uninstantiated generic %s", name))
 	}
+	ex.callStack = append(ex.callStack, fn)
+	defer func() { ex.callStack = ex.callStack[:len(ex.callStack)-1] }()
 	ex.depth++
 	if ex.depth > 400 {
 		panic(engineErr("call depth exceeded in %s", name))
